@@ -28,10 +28,14 @@ func VH_C17_stop() {
 	startedAfterSeenStop := 0
 	running := 0
 	handled := 0
+	calls := 0
 	q.WithHandler(func(t task.Task) TaskResult {
 		if stopRequested {
 			startedAfterStop++
-			if zz.LastDoneCheckSawClosed() {
+			// "already picked" means: nothing but the hand-over lies between the worker's last
+			// look at the cancellation and this call - it did not see the cancellation, and it
+			// did not sleep or wait for a timer in between
+			if zz.LastDoneCheckSawClosed() || zz.SleptSinceLastDoneCheck() {
 				startedAfterSeenStop++
 			}
 		}
@@ -39,6 +43,17 @@ func VH_C17_stop() {
 		zz.Assert(running == 1, "one_handler_at_a_time")
 		zz.Yield()
 		running--
+		calls++
+		// the first results may ask for a retry (Repeat, Fail): the retry delay is one of
+		// the places where the shutdown request can arrive
+		if calls <= 1 {
+			switch zz.Len("first_result", 0, 2) {
+			case 1:
+				return TaskResult{Status: Repeat}
+			case 2:
+				return TaskResult{Status: Fail}
+			}
+		}
 		handled++
 		return TaskResult{Status: Success}
 	})
@@ -58,7 +73,7 @@ func VH_C17_stop() {
 	zz.WaitUntil(func() bool { return q.Status == "stop" })
 	zz.Assert(stopRequested, "worker_stops_only_on_request")
 	zz.Assert(startedAfterStop <= 1, "at_most_one_task_starts_after_shutdown_request")
-	zz.Assert(startedAfterSeenStop == 0, "no_task_starts_after_the_worker_saw_the_cancellation")
+	zz.Assert(startedAfterSeenStop == 0, "no_task_starts_after_the_worker_saw_the_cancellation_or_waited_without_looking")
 	zz.Assert(handled <= n+late, "no_task_handled_twice")
 	zz.Reach("end")
 }
